@@ -27,6 +27,19 @@ The transformation preserves behaviour by construction; the regression corpus un
 /verif/benign (helper extractions produced independently) is the test that it lets the
 rules see through them.  Anything that does not fit the conditions above is simply not
 expanded (the call stays opaque and the rules treat it as such).
+
+Besides helper expansion the normal form removes a few *spellings* (each ``lower_*`` function
+states its side conditions and leaves the code untouched when one of them fails; all of them are
+rewrites of the syntax tree, nothing is executed):
+
+  lower_combinators / lower_index_loops / lower_suppress      (rounds 4-5)
+  lower_record_entries     get_fields() entries as a namedtuple                    (round 6)
+  lower_callable_records   closures written as classes with __init__ / __call__    (round 7)
+  lower_value_objects      immutable namedtuple subclasses kept in one attribute   (round 7)
+  lower_module_records     R(...) / R(*t) of a module-level namedtuple, e.field    (round 7)
+  lower_getters            attrgetter / itemgetter / one-expression key functions   (round 7)
+  lower_derived_maps       a dict attribute caching k + len(C[k]) next to C        (round 7)
+  lower_compiled_aliases   self.A = self.X.m after self.X._compile(...)            (round 7)
 """
 import ast
 import copy
